@@ -14,7 +14,7 @@ for f in os.listdir(out + "/demo"):
     if not f.endswith(".log"):
         shutil.copy(os.path.join(out, "demo", f), dst + "/demo/" + f)
 meta = json.load(open(out + "/meta.json"))
-m = re.search(r"######## %s\n(.*?)(?=\n######## |\nALLDONE|\Z)" % re.escape(name if rnd > 1 else pid), log, re.S)
+m = re.search(r"######## %s\n(.*?)(?=\n######## |\nALLDONE|\Z)" % re.escape(pid + ("-r%d" % rnd if rnd > 1 else "")), log, re.S)
 json.dump({
     "property": pid, "round": rnd,
     "origin": "independent sub-agent given only the property text and a scratch worktree of /repo; nothing from /verif",
